@@ -859,6 +859,24 @@ func Aggregate(name string, distinct bool, vals []V) V {
 	switch name {
 	case "count":
 		return Int(int64(len(vals)))
+	case "array_agg":
+		// ascending order; rendered the way ParseJSONLines renders a printed list
+		s := append([]V{}, vals...)
+		sort.SliceStable(s, func(i, j int) bool { return Cmp(s[i], s[j]) < 0 })
+		p := make([]string, len(s))
+		for i, v := range s {
+			switch v.K {
+			case KInt:
+				p[i] = fmt.Sprint(v.I)
+			case KFloat:
+				p[i] = fmt.Sprintf("%g", v.F)
+			case KStr:
+				p[i] = fmt.Sprintf("%q", v.S)
+			default:
+				p[i] = strings.ToLower(v.String())
+			}
+		}
+		return Str("json:[" + strings.Join(p, ",") + "]")
 	case "min", "max":
 		best := vals[0]
 		for _, v := range vals[1:] {
